@@ -50,7 +50,7 @@ func (s ValScript) MarshalJSON() ([]byte, error) {
 	return json.Marshal(p)
 }
 
-var cVal = vt.New("C08", "value-roundtrip")
+var cVal = newC("value-roundtrip")
 
 func genVal(t *rapid.T) ValScript {
 	k := kindGen().Draw(t, "kind")
@@ -206,6 +206,14 @@ func checkJSON(col *vt.C, c *codec, v any, tree any, bp []byte, facts *treeFacts
 		return vt.Failf("panic/unmarshal-json/"+c.name, "UnmarshalJSON panics on marshaled text: %s", d)
 	}
 	if err != nil {
+		if d := jsonNesting(bj); d > jsoniterMaxDepth {
+			// the marshaler writes any nesting depth, the reader refuses more than 10000 levels
+			kf := vt.Failf("json-depth-limit/own-output-rejected", "MarshalJSON writes a value whose JSON text nests %d levels deep (attribute values nested more than ~3300 levels), UnmarshalJSON refuses more than %d: %v (kind %s)", d, jsoniterMaxDepth, err, c.name)
+			if col.Soft(kf, script) {
+				return nil
+			}
+			return kf
+		}
 		return vt.Failf("roundtrip/json/"+c.name+"/rejected", "UnmarshalJSON rejects what MarshalJSON produced: %v\n%s", err, cut(string(bj)))
 	}
 	masked, f := compareTrees(col, script, "json", c, tree, pview.Of(v3))
@@ -241,6 +249,39 @@ func checkJSON(col *vt.C, c *codec, v any, tree any, bp []byte, facts *treeFacts
 	}
 	col.Class("json-strict-ok")
 	return nil
+}
+
+// jsoniterMaxDepth is the nesting limit of the JSON reader library (jsoniter's
+// maxDepth, a public, documented behaviour of its Iterator).
+const jsoniterMaxDepth = 10000
+
+// jsonNesting returns the maximal bracket nesting of a JSON text.
+func jsonNesting(b []byte) int {
+	depth, max := 0, 0
+	inStr := false
+	for i := 0; i < len(b); i++ {
+		c := b[i]
+		if inStr {
+			if c == '\\' {
+				i++
+			} else if c == '"' {
+				inStr = false
+			}
+			continue
+		}
+		switch c {
+		case '"':
+			inStr = true
+		case '{', '[':
+			depth++
+			if depth > max {
+				max = depth
+			}
+		case '}', ']':
+			depth--
+		}
+	}
+	return max
 }
 
 // fieldOf extracts the last two path elements (indices and map keys removed)
@@ -314,5 +355,5 @@ func classify(col *vt.C, c *codec, f *treeFacts) {
 }
 
 func TestValueRoundTrip(t *testing.T) {
-	vt.Run(t, cVal, vt.N(6000, 400000), genVal, runVal)
+	vt.Run(t, cVal, vt.N(20000, 600000), genVal, runVal)
 }
